@@ -248,8 +248,17 @@ def h_evaluation_start():
         vm.call_method(f, "add", make_dict([]))               # the empty assignment: 'everything seen'
         seen_before = vm.call_method(t, "check", make_dict([(1, "a")])) is True and vm.call_method(f, "check", make_dict([(2, "b")])) is True
         vm.call_method(sel, "_start_evaluation_")
+        # whatever objects hold the records now (the old ones cleared, or new ones): read them through the selector
+        from pyvc.ops import dict_get as _dg
+        now = vm._getattr(sel, "concluded_before")
+        t, f = _dg(now, True), _dg(now, False)
         fresh = all(vm.call_method(s, "check", make_dict([(1, "a")])) is False and vm.call_method(s, "check", make_dict([(2, "b")])) is False
                     for s in (t, f))
+        # ... and the records of the two truth values are independent of each other
+        vm.call_method(f, "add", make_dict([(3, "c")]))
+        independent = vm.call_method(t, "check", make_dict([(3, "c")])) is False and vm.call_method(f, "check", make_dict([(3, "c")])) is True
+        vm.call_method(f, "clear")
+        ctx.check("ConclusionSelector._start_evaluation_::true-and-false-results-are-remembered-separately", z3.BoolVal(independent and t is not f))
         ctx.check("ConclusionSelector._start_evaluation_::forgets-what-earlier-evaluations-concluded", z3.BoolVal(seen_before and fresh),
                   detail=f"remembered before={seen_before}, forgotten after={fresh}")
         ctx.check("ConclusionSelector._start_evaluation_::conclusions-selected-by-an-abandoned-evaluation-are-dropped", z3.BoolVal(chosen.items == []), detail=repr(chosen))
